@@ -213,7 +213,7 @@ class BuildError(ToolError):
     pass
 
 
-def run_replay(binp, cases, name, jobs=None, per_case_timeout=60):
+def run_replay(binp, cases, name, jobs=None, per_case_timeout=60, fresh_process=False):
     """Runs harness `replay` over cases (list of dicts with unique 'id'), in parallel worker
     processes.  A worker that dies (abort, signal) is restarted after the case in flight, which is
     reported as {"id":..., "abort": <signal/rc>}.  Returns dict id -> observation."""
@@ -222,6 +222,9 @@ def run_replay(binp, cases, name, jobs=None, per_case_timeout=60):
     os.makedirs(wd, exist_ok=True)
     jobs = jobs or NCPU
     jobs = max(1, min(jobs, (len(cases) + 49) // 50))
+    if fresh_process:
+        # one process per case (state that survives inside a process, e.g. liblinear's random generator, must not leak)
+        jobs = max(1, len(cases))
     chunks = [cases[i::jobs] for i in range(jobs)]
     procs = []
     for k, ch in enumerate(chunks):
